@@ -258,7 +258,7 @@ type classOut struct {
 	Detail map[string]any `json:"detail"`
 }
 
-// ladderWorker runs one class and writes one JSON line.  args: <class index> <tier> <deadline unix seconds>
+// ladderWorker runs the given classes and writes one JSON line per class.  args: <class index>[,<class index>...] <tier> <deadline unix seconds>
 func ladderWorker(args []string) {
 	lim := syscall.Rlimit{Cur: 6 << 30, Max: 6 << 30}
 	_ = syscall.Setrlimit(syscall.RLIMIT_AS, &lim)
@@ -272,10 +272,18 @@ func ladderWorker(args []string) {
 		pprof.StartCPUProfile(f)
 		defer pprof.StopCPUProfile()
 	}
-	idx, _ := strconv.Atoi(args[0])
 	thorough := args[1] == "thorough"
 	dl, _ := strconv.ParseInt(args[2], 10, 64)
 	deadline := time.Unix(dl, 0)
+	for _, a := range strings.Split(args[0], ",") { // one JSON line per class
+		idx, _ := strconv.Atoi(a)
+		classes, neither = map[string]*classRec{}, nil
+		nParses.Store(0)
+		ladderClassRun(idx, thorough, deadline)
+	}
+}
+
+func ladderClassRun(idx int, thorough bool, deadline time.Time) {
 	lc := ladderClasses()[idx]
 	c := &constructs[lc.ci]
 	out := ladderOut{Class: lc.String(), Complete: true}
@@ -296,6 +304,12 @@ func ladderWorker(args []string) {
 	if !lc.resolve {
 		base = uint(goparser.SkipObjectResolution)
 	}
+	if time.Now().After(deadline) {
+		out.Complete = false
+		out.Skipped = "budget cap reached before this class was started"
+		emit()
+		return
+	}
 	trip, ok := 0, false
 	if lc.resolve && lc.ep == epFile {
 		trip, ok = tripPoint(c, lc.ep, base, 0, shallowMax)
@@ -307,8 +321,9 @@ func ladderWorker(args []string) {
 			return
 		}
 		out.Deep = true
-		// every maxNestLev trip seen so far lies within a few units of 1e5: try a narrow bracket first
-		if lo, hi := 100000-40, 100000+10; !tripped(c, lc.ep, base, lo) {
+		// every maxNestLev trip seen so far lies within a few units of 1e5: try a narrow bracket first (an accelerator
+		// only: the result is the smallest tripping depth in any case)
+		if lo, hi := 100000-8, 100000+2; !tripped(c, lc.ep, base, lo) {
 			trip, ok = tripPoint(c, lc.ep, base, lo, hi)
 		}
 		if !ok {
@@ -333,7 +348,7 @@ func ladderWorker(args []string) {
 	case thorough:
 		depths = []int{1, 2, 3, trip / 2, trip - 3, trip - 2, trip - 1, trip, trip + 1, trip + 2, trip + 3, 2 * trip}
 	default:
-		depths = []int{trip - 1, trip, trip + 1}
+		depths = []int{trip - 1, trip}
 	}
 	if lc.ep == epExpr || !lc.resolve {
 		kinds = []string{errSyn} // a redeclaration is an error only for the resolver
@@ -407,43 +422,85 @@ func ladderPhase(tier string, parallel int, deadline time.Time) ladderSummary {
 	errs := make([]string, len(lcs))
 	sem := make(chan struct{}, parallel)
 	done := make(chan int, len(lcs))
+	// one worker process runs a group of classes: quick = the (file, resolution on) classes in three groups (scope-depth
+	// trips, ~1 ms per case) and every 1e5-scale class alone; thorough = every class alone
+	runGroup := func(group []int) {
+		if time.Now().After(deadline) { // budget used up: not started
+			for _, i := range group {
+				if outs[i] == nil {
+					outs[i] = &ladderOut{Class: lcs[i].String(), Skipped: "budget cap reached before this class was started"}
+				}
+			}
+			return
+		}
+		var ids []string
+		for _, i := range group {
+			ids = append(ids, strconv.Itoa(i))
+		}
+		cmd := exec.Command(os.Args[0], "-ladderworker", strings.Join(ids, ","), tier, strconv.FormatInt(deadline.Unix(), 10))
+		// stacks stay grown between the parses of a worker (re-growing a 100 MB stack costs more than a parse)
+		cmd.Env = append(os.Environ(), "GODEBUG=gcshrinkstackoff=1")
+		var so, se bytes.Buffer
+		cmd.Stdout, cmd.Stderr = &so, &se
+		err := cmd.Run()
+		if ps := cmd.ProcessState; ps != nil {
+			cpuMu.Lock()
+			ladderCPU += ps.UserTime() + ps.SystemTime()
+			cpuMu.Unlock()
+		}
+		lines := bytes.Split(bytes.TrimSpace(so.Bytes()), []byte("\n"))
+		for k, i := range group {
+			if k < len(lines) {
+				var o ladderOut
+				if json.Unmarshal(lines[k], &o) == nil && o.Class == lcs[i].String() {
+					outs[i] = &o
+					continue
+				}
+			}
+			tail := se.String()
+			if len(tail) > 600 {
+				tail = tail[:600]
+			}
+			errs[i] = fmt.Sprintf("%v; stderr: %s", err, tail)
+		}
+	}
+	var groups [][]int
+	shallow := make([][]int, 3)
 	for i := range lcs {
-		if c := &constructs[lcs[i].ci]; tier != "thorough" && !c.quickDeep && !(lcs[i].resolve && lcs[i].ep == epFile) {
+		c := &constructs[lcs[i].ci]
+		fileResolve := lcs[i].resolve && lcs[i].ep == epFile
+		switch {
+		case tier != "thorough" && !c.quickDeep && !fileResolve:
 			// certain to be a 1e5-scale class: no worker needed to find that out
 			outs[i] = &ladderOut{Class: lcs[i].String(), Complete: true, Skipped: "1e5-scale class: thorough tier only"}
-			done <- i
-			continue
+		case tier != "thorough" && fileResolve && !c.quickDeep:
+			g := lcs[i].ci % len(shallow)
+			shallow[g] = append(shallow[g], i)
+		default:
+			groups = append(groups, []int{i})
 		}
-		go func(i int) {
-			sem <- struct{}{}
-			defer func() { <-sem; done <- i }()
-			cmd := exec.Command(os.Args[0], "-ladderworker", strconv.Itoa(i), tier, strconv.FormatInt(deadline.Unix(), 10))
-			// stacks stay grown between the parses of a worker (re-growing a 100 MB stack costs more than a parse)
-			cmd.Env = append(os.Environ(), "GODEBUG=gcshrinkstackoff=1")
-			var so, se bytes.Buffer
-			cmd.Stdout, cmd.Stderr = &so, &se
-			err := cmd.Run()
-			if ps := cmd.ProcessState; ps != nil {
-				cpuMu.Lock()
-				ladderCPU += ps.UserTime() + ps.SystemTime()
-				cpuMu.Unlock()
-			}
-			var o ladderOut
-			if err == nil {
-				err = json.Unmarshal(so.Bytes(), &o)
-			}
-			if err != nil {
-				tail := se.String()
-				if len(tail) > 600 {
-					tail = tail[:600]
-				}
-				errs[i] = fmt.Sprintf("%v; stderr: %s", err, tail)
-				return
-			}
-			outs[i] = &o
-		}(i)
 	}
-	for range lcs {
+	for _, g := range shallow {
+		if len(g) > 0 {
+			groups = append(groups, g)
+		}
+	}
+	for _, g := range groups {
+		go func(g []int) {
+			sem <- struct{}{}
+			defer func() { <-sem; done <- 0 }()
+			runGroup(g)
+			if len(g) > 1 {
+				// a group that died is re-run class by class, so that the crash is attributed to its class
+				for _, i := range g {
+					if outs[i] == nil {
+						runGroup([]int{i})
+					}
+				}
+			}
+		}(g)
+	}
+	for range groups {
 		<-done
 	}
 	sum := ladderSummary{complete: true}
@@ -459,6 +516,9 @@ func ladderPhase(tier string, parallel int, deadline time.Time) ladderSummary {
 		}
 		sum.classes++
 		if o.Skipped != "" {
+			if strings.HasPrefix(o.Skipped, "budget") {
+				sum.complete = false
+			}
 			sum.skipped++
 			sum.trips = append(sum.trips, o.Class+": "+o.Skipped)
 			continue
@@ -500,4 +560,51 @@ func ladderPhase(tier string, parallel int, deadline time.Time) ladderSummary {
 		classMu.Unlock()
 	}
 	return sum
+}
+
+// ladderSourceFromLabel regenerates the input of a ladder case from its label (replay of inputs too large to be stored):
+// <construct>/<file|expr>/<resolve|noresolve>:n=<depth>[(trip±k)]:errs=<others>[+same]/<syn|decl>
+func ladderSourceFromLabel(label string) ([]byte, bool) {
+	parts := strings.Split(label, ":")
+	if len(parts) != 3 {
+		return nil, false
+	}
+	cl := strings.Split(parts[0], "/")
+	if len(cl) != 3 || !strings.HasPrefix(parts[1], "n=") || !strings.HasPrefix(parts[2], "errs=") {
+		return nil, false
+	}
+	var c *construct
+	for i := range constructs {
+		if constructs[i].name == cl[0] {
+			c = &constructs[i]
+		}
+	}
+	if c == nil {
+		return nil, false
+	}
+	ep := epFile
+	if cl[1] == "expr" {
+		ep = epExpr
+	}
+	ns := strings.TrimPrefix(parts[1], "n=")
+	if i := strings.IndexByte(ns, '('); i >= 0 {
+		ns = ns[:i]
+	}
+	n, err := strconv.Atoi(ns)
+	if err != nil {
+		return nil, false
+	}
+	es := strings.Split(strings.TrimPrefix(parts[2], "errs="), "/")
+	if len(es) != 2 {
+		return nil, false
+	}
+	var p prefix
+	if strings.HasSuffix(es[0], "+same") {
+		p.same = true
+		es[0] = strings.TrimSuffix(es[0], "+same")
+	}
+	if p.others, err = strconv.Atoi(es[0]); err != nil {
+		return nil, false
+	}
+	return ladderSource(c, ep, n, p, es[1]), true
 }
